@@ -589,7 +589,8 @@ func c09CheckDim(h *vHarness, where string, d int, pol int, thr, capPct int64, c
 			where, out, bound, c09Max(base-c.use, 0))
 		return
 	}
-	if c.anyNoMetric && pol != 1 && out <= c09Max(base-hpOf(pol, true), 0) {
+	alt := c09Max(base-hpOf(pol, true), 0) // the amount if HP pods without metrics were not charged at all
+	if c.anyNoMetric && pol != 1 && out == alt && (capPct < 0 || alt < limit) {
 		h.Fail("C09:no-metric-not-charged", "%s dim %d policy %d: published %d > bound %d; explained by not charging the request of HP pods without metrics",
 			where, d, pol, out, bound)
 		return
@@ -1050,6 +1051,13 @@ func TestVerifC09(t *testing.T) {
 			// monotonicity pair: raise one consumption input, nothing may go up
 			s2 := s.clone()
 			if what := c09Bump(r, s2); what != "" {
+				if what == "margin" { // FloatOK.mul_mono_k on this input
+					for _, x := range [][3]int64{{c09P0(s.capC), 100 - s.cpuThr, 100 - s2.cpuThr}, {c09P0(s.capM), 100 - s.memThr, 100 - s2.memThr}} {
+						if c09MulPct(x[0], x[1]) > c09MulPct(x[0], x[2]) {
+							h.Fail("C09:float-assumption", "mulPct(%d,.) not monotone: %d%% -> %d, %d%% -> %d", x[0], x[1], c09MulPct(x[0], x[1]), x[2], c09MulPct(x[0], x[2]))
+						}
+					}
+				}
 				h.Op("clear")
 				c09Emit(h, s2)
 				res2 := c09Run(h, s2)
